@@ -390,6 +390,81 @@ theorem regular_set_membership_eq_ref (s : List Clause)
     rw [VC.allows_of_reg hB res h2 h3 v, h4, hfp]
     simp [contains]
 
+/-- **a comma-joined specifier set of any length of single-range clauses** — every operator but `!=` and `!=V.*`:
+ordered comparisons, `==`, `~=`, `==V.*` — over literals without local label (wildcard literals final): no
+regularity between the literals is needed (`>=1.2, ==1.2.*`, `~=1.2, <1.2.5` are covered).  `parse_constraint`'s
+left-to-right `intersect` is defined and its membership equals the reference conjunction on candidates regular for
+the ends of the clauses' ranges. -/
+theorem range_set_membership_eq_ref (first : Clause) (rest : List Clause)
+    (hok : ∀ c ∈ first :: rest, ClauseOk c.op c.lit ∧ (c.op = .eqStar → c.lit.isFinal = true) ∧
+      c.op ≠ .ne ∧ c.op ≠ .neStar ∧ c.lit.loc = none)
+    (v : Version) (hv : v.wf = true) (hreg : Regular (setBounds (first :: rest)) v) :
+    ∃ r, setVC (first :: rest) = .ok r ∧ r.allows v = .ok (contains (first :: rest) v) := by
+  let mem : Clause → RC := fun d => clauseMember d.op d.lit
+  have hok' : ∀ c ∈ first :: rest, ClauseOk' c.op c.lit := fun c hc =>
+    ⟨(hok c hc).1.1, (hok c hc).1.2.1, (hok c hc).1.2.2, fun h => by
+      rcases h with h | h
+      · exact (hok c hc).2.1 h
+      · exact absurd h (hok c hc).2.2.2.1⟩
+  have spec : ∀ c ∈ first :: rest, clauseVC c.op c.lit = .ok (.single (mem c)) ∧ (mem c).WF ∧
+      (∀ e ∈ (mem c).bounds, e ∈ setBounds (first :: rest)) ∧ ∀ e ∈ clauseBounds c.op c.lit, e.loc = none := by
+    intro c hc
+    obtain ⟨s1, s2, s3, s4⟩ := clauseMember_spec c.op c.lit (hok' c hc) ⟨(hok c hc).2.2.1, (hok c hc).2.2.2.1⟩
+      (hok c hc).2.2.2.2
+    exact ⟨s1, s2, fun e he => List.mem_flatMap.2 ⟨c, hc, s3 e he⟩, s4⟩
+  have hL : ∀ e ∈ setBounds (first :: rest), e.loc = none := by
+    intro e he
+    obtain ⟨c, hc, hce⟩ := List.mem_flatMap.1 he
+    exact (spec c hc).2.2.2 e hce
+  have sem : ∀ d ∈ first :: rest, (mem d).allows v = d.contains v := by
+    intro d hd
+    have hx := (spec d hd).1
+    by_cases h1 : d.op = .eqStar
+    · obtain ⟨y, hy, ay⟩ := wildcard_membership_eq_ref d.lit v (hok d hd).1.1 ((hok d hd).2.1 h1) hv
+      rw [h1] at hx; rw [hx] at hy; cases hy
+      cases d; simp only at h1; subst h1
+      simpa [VC.allows] using ay
+    · have hlit : d.lit ∈ setBounds (first :: rest) := List.mem_flatMap.2 ⟨d, hd, by
+        have := (hok d hd).2.2.2.1
+        cases hop : d.op <;> simp_all [clauseBounds]⟩
+      obtain ⟨y, hy, ay⟩ := clause_membership_eq_ref d.op d.lit v (hok d hd).1 ⟨h1, (hok d hd).2.2.2.1⟩ hv
+        (hreg.reg1 hlit)
+      rw [hx] at hy; cases hy
+      simpa [VC.allows] using ay
+  have hf := spec first (by simp)
+  obtain ⟨r, hr1, hr2⟩ := foldIntersect_exact (setBounds (first :: rest)) hL v hv (fun e he => hreg.reg1 he)
+    (rest.map mem) (.single (mem first)) ((mem first).allows v) trivial
+    (by intro c hc; simp [VC.flatten] at hc; subst hc; exact hf.2.1)
+    (by intro e he; exact hf.2.2.1 e (by simpa [VC.bounds] using he))
+    rfl
+    (by intro n hn
+        obtain ⟨c, hc, rfl⟩ := List.mem_map.1 hn
+        exact ⟨(spec c (by simp [hc])).2.1, (spec c (by simp [hc])).2.2.1⟩)
+  refine ⟨r, ?_, ?_⟩
+  · have e1 : setVC (first :: rest) =
+        rest.foldlM (fun acc d => do VC.intersect acc (← clauseVC d.op d.lit)) (.single (mem first)) := by
+      simp only [setVC, hf.1]; rfl
+    rw [e1, foldClauses_members rest _ (fun d hd => (spec d (by simp [hd])).1)]
+    exact hr1
+  · rw [hr2, sem first (by simp)]
+    congr 1
+    simp only [contains, List.all_cons, List.all_map]
+    congr 1
+    apply bool_eq_of_iff
+    simp only [List.all_eq_true, Function.comp]
+    constructor
+    · intro h c hc; rw [← sem c (by simp [hc])]; exact h c hc
+    · intro h c hc; rw [sem c (by simp [hc])]; exact h c hc
+
+/-- the hypotheses are satisfiable: `>=1.2, ==1.2.*, ~=1.2.3` (the ends `1.2`, `1.2.dev0`, `1.2.3` share releases
+without being equal) on the candidate `1.4.dev0+l` -/
+example : let s : List Clause := [⟨.ge, mk' 0 [1, 2] none none none none⟩, ⟨.eqStar, mk' 0 [1, 2] none none none none⟩,
+      ⟨.compat, mk' 0 [1, 2, 3] none none none none⟩]
+    Regular (setBounds s) (mk' 0 [1, 4] none none (some ⟨.dev, 0⟩) (some ["l"])) ∧
+    contains s (mk' 0 [1, 4] none none (some ⟨.dev, 0⟩) (some ["l"])) = false := by
+  intro s
+  exact ⟨Regular.of_check (by decide), by decide⟩
+
 /-- `~=1.2, !=1.3.*, !=1.2.5, >=1.2` -/
 private def exSet : List Clause :=
   [⟨.compat, mk' 0 [1, 2] none none none none⟩, ⟨.neStar, mk' 0 [1, 3] none none none none⟩,
@@ -411,8 +486,9 @@ guard.  Proved: single clauses on regular candidates (`clause_membership_eq_ref`
 literals (`final_literal_membership_eq_ref`, wildcards included), sets of any length of ordered comparisons /
 `==` on candidates regular for every literal (`set_membership_eq_ref`), and sets of any length with any
 operators in the regular setting (`regular_set_membership_eq_ref`: range ends mutually regular, without local
-label; candidate regular for them).  Not proved: sets whose range ends share a release without being equal
-(`>=1.2, !=1.2.*`: `1.2` and `1.2.dev0`), and sets on candidates of a literal's own release.  Known to need two
+label; candidate regular for them), and sets of single-range clauses without any regularity between the literals
+(`range_set_membership_eq_ref`).  Not proved: sets with a `!=` / `!=V.*` clause whose range ends share a release
+without being equal (`>=1.2, !=1.2.*`: `1.2` and `1.2.dev0`), and sets on candidates of a literal's own release.  Known to need two
 more hypotheses (check stream, known findings "sibling-of-another-literal", "local-min-intersect"): regularity
 per literal, and no `==V` clause meeting a bound that is a local build of `V`. -/
 def membership_eq_ref_full_statement : Prop :=
